@@ -191,6 +191,34 @@ def run(ctx):
                     except Exception:
                         pass  # judged by the monitor
                 ctx.hit(f"removed:{len(removed)}")
+            # structural incompleteness: no inputs / no outputs / an output without terms / no rule blocks / an empty rule block
+            for what in ("no-inputs", "no-outputs", "no-terms", "no-blocks", "empty-block", "no-activation"):
+                try:
+                    engine = E.build(fl, spec)
+                except Exception:
+                    break
+                if what == "no-inputs":
+                    # keep rules that do not need inputs out of the picture: the engine simply has no input variables
+                    engine.input_variables.clear()
+                elif what == "no-outputs":
+                    engine.output_variables.clear()
+                elif what == "no-terms":
+                    engine.output_variables[0].terms.clear()
+                elif what == "no-blocks":
+                    engine.rule_blocks.clear()
+                elif what == "empty-block":
+                    engine.rule_blocks[0].rules.clear()
+                else:
+                    engine.rule_blocks[0].activation = None
+                keep.append(engine)
+                engine.is_ready()
+                for v, x in zip(engine.input_variables, rows[0]):
+                    v.value = x
+                try:
+                    engine.process()
+                except Exception:
+                    pass
+                ctx.hit(f"structural:{what}")
             mon.needs.clear()
             mon.verdict.clear()
             if i < 2:
